@@ -26,6 +26,7 @@ type SelectStatement struct {
 	Window      WindowDefinition
 	GroupBy     []string
 	Limit       int
+	HasLimit    bool // true when a LIMIT clause was written; tells LIMIT 0 from no LIMIT
 	Having      string
 	OrderBy     []types.OrderByField
 	JoinConfigs []types.JoinConfig
@@ -299,6 +300,7 @@ func (s *SelectStatement) ToStreamConfig() (*types.Config, string, error) {
 		SelectAlias:        selectAlias,
 		Distinct:           s.Distinct,
 		Limit:              s.Limit,
+		HasLimit:           s.HasLimit,
 		NeedWindow:         needWindow,
 		Mode:               mode,
 		MatchRecognize:     s.MatchRecognize,
